@@ -1,5 +1,6 @@
 import Ccp.Proofs.IPVal
 import Ccp.Proofs.IPValCollapse
+import Ccp.Proofs.IPValX
 /-!
 # C12 — membership between address objects is exactly subnet containment
 
@@ -188,5 +189,129 @@ example : (mergeLoop v4 34 [(0xc0000201, 32), (0x0a000107, 32), (0x0a000100, 24)
     (0x0a000000, 25)] []).map (·.2) = [(0x0a000000, 23), (0x0a000107, 32), (0xc0000201, 32)] := by decide
 example : dropCovered v4 none [(0x0a000000, 23), (0x0a000107, 32), (0xc0000201, 32)]
     = [(0x0a000000, 23), (0xc0000201, 32)] := by decide
+
+/-! ## The other operands `in` and `collapse_addresses` meet
+
+`containsX self val` is `val in self` for any two operands (`Ccp.Model.IPValX`): a non-empty object of
+either family, the empty object `IPv4Obj()` / `IPv6Obj()`, or a `str`; the answer is a truth value or
+the exception class that escapes.  `collapseX isSeq items` is `collapse_addresses(arg)` for an argument
+that is a `Sequence` or not, with items that are objects, stdlib networks, empty objects or something else. -/
+
+open Ccp.IPValX in
+/-- **on two non-empty objects of one family the general operator is the membership test of the
+theorems above** (so `contains4_iff` / `contains6_iff` speak about `in` itself), and it never raises there -/
+theorem containsX_same_family (y x : Obj) :
+    containsX (.obj4 y) (.obj4 x) = some (.ok (contains4 v4 y x)) ∧
+    containsX (.obj6 y) (.obj6 x) = some (.ok (contains6 v6 y x)) := by
+  refine ⟨rfl, ?_⟩
+  simp only [containsX, contains6X]
+  split
+  · next h => simp [contains6, h]
+  · rfl
+
+open Ccp.IPValX in
+/-- **empty objects, IPv4**: `IPv4Obj() in IPv4Obj()` is true; an empty object is in no non-empty
+object and contains none; between IPv4 operands (empty or not) `in` never raises. -/
+theorem containsX_empty4 (x : Obj) :
+    containsX .empty4 .empty4 = some (.ok true) ∧
+    containsX (.obj4 x) .empty4 = some (.ok false) ∧
+    containsX .empty4 (.obj4 x) = some (.ok false) := ⟨rfl, rfl, rfl⟩
+
+open Ccp.IPValX in
+/-- **empty objects, IPv6**: an empty container raises `ValueError` whatever the operand; an empty
+operand raises `ValueError` unless the container is the zero prefix, which answers `True` before it
+looks at the operand. -/
+theorem containsX_empty6 (y : Obj) (val : Arg) :
+    containsX .empty6 val = some (.error .valueError) ∧
+    (y.len ≠ 0 → containsX (.obj6 y) .empty6 = some (.error .valueError)) ∧
+    (y.len = 0 → containsX (.obj6 y) val = some (.ok true)) := by
+  refine ⟨rfl, fun h => ?_, fun h => ?_⟩ <;> simp [containsX, contains6X, h]
+
+open Ccp.IPValX in
+/-- **the other family** (what `ipgrep` guards against with `addr.version == subnet.version`): an IPv6
+operand in an IPv4 container is decided by the prefix lengths and the first comparison, else
+`ValueError`; an IPv4 operand in an IPv6 container is `True` for the zero prefix, `False` for a longer
+container prefix, else `ValueError`.  It is never decided by containment. -/
+theorem containsX_other_family (y x : Obj) :
+    containsX (.obj4 y) (.obj6 x) = some (
+      if y.len = 0 then .ok true else if y.len > x.len then .ok false
+      else if y.net ≤ x.net then .error .valueError else .ok false) ∧
+    containsX (.obj6 y) (.obj4 x) = some (
+      if y.len = 0 then .ok true else if y.len > x.len then .ok false else .error .valueError) :=
+  ⟨rfl, rfl⟩
+
+open Ccp.IPValX in
+/-- **`collapse_addresses` accepts objects and stdlib networks alike**: for a `Sequence` of objects /
+networks of one family the result is the stdlib collapse of the networks they stand for (so
+`collapse_covers` … `collapse_minimal` apply); in particular a list of objects and the list of their
+`.network`s give the same result, which is `collapse` of the theorems above. -/
+theorem collapseX_forms (fam : Nat) (items : List Item) (hg : ∀ i ∈ items, GoodItem i)
+    (hf : ∀ i ∈ items, (itemNet i).1 = fam) (hne : items ≠ []) :
+    collapseX true items = .ok (collapseNets (famOfNat fam) (items.map (fun i => (itemNet i).2))) := by
+  have hs : sameVersion (items.map itemNet) = true :=
+    sameVersion_const fam _ (fun p hp => by
+      obtain ⟨i, hi, rfl⟩ := List.mem_map.mp hp
+      exact hf i hi)
+  simp only [collapseX, Bool.not_true, Bool.false_eq_true, if_false, ipNets_good items hg, hs]
+  cases items with
+  | nil => exact absurd rfl hne
+  | cons i is =>
+    have := hf i (List.mem_cons_self ..)
+    simp only [List.map_cons, this, List.map_map]
+    rfl
+
+open Ccp.IPValX in
+theorem collapseX_objects (fam : Nat) (objs : List Obj) :
+    collapseX true (objs.map (.obj fam)) = .ok (collapse (famOfNat fam) objs) ∧
+    collapseX true (objs.map (fun x => .net fam (network x))) = .ok (collapse (famOfNat fam) objs) := by
+  cases objs with
+  | nil => exact ⟨by simp [collapseX, ipNets, sameVersion, collapse, collapseNets, mergeLoop, dropCovered],
+      by simp [collapseX, ipNets, sameVersion, collapse, collapseNets, mergeLoop, dropCovered]⟩
+  | cons x xs =>
+    constructor
+    · rw [collapseX_forms fam _ (by simp [GoodItem]) (by simp [itemNet]) (by simp)]
+      simp [collapse, itemNet, Function.comp_def]
+    · rw [collapseX_forms fam _ (by simp [GoodItem]) (by simp [itemNet]) (by simp)]
+      simp [collapse, itemNet, Function.comp_def]
+
+open Ccp.IPValX in
+/-- **what `collapse_addresses` rejects**: an argument that is not a `Sequence` (a set, a dict, an
+iterator) → `ValueError`; otherwise the first item that is neither object nor network decides —
+`ValueError` for another type, `AttributeError` for an empty object; two neighbouring items of
+different families → `TypeError` (from the stdlib). -/
+theorem collapseX_rejects (items pre post : List Item) (hp : ∀ i ∈ pre, GoodItem i) :
+    collapseX false items = .error .valueError ∧
+    collapseX true (pre ++ .bad :: post) = .error .valueError ∧
+    collapseX true (pre ++ .empty :: post) = .error .attributeError ∧
+    (∀ a b : Item, GoodItem a → GoodItem b → (∀ i ∈ post, GoodItem i) → (itemNet a).1 ≠ (itemNet b).1 →
+      collapseX true (pre ++ a :: b :: post) = .error .typeError) := by
+  refine ⟨rfl, ?_, ?_, ?_⟩
+  · simp [collapseX, ipNets_first_bad pre .bad post hp .valueError rfl]
+  · simp [collapseX, ipNets_first_bad pre .empty post hp .attributeError rfl]
+  · intro a b ha hb hpost hne
+    have hg : ∀ i ∈ pre ++ a :: b :: post, GoodItem i := by
+      intro i hi
+      simp only [List.mem_append, List.mem_cons] at hi
+      rcases hi with h | rfl | rfl | h
+      · exact hp i h
+      · exact ha
+      · exact hb
+      · exact hpost i h
+    have hs := sameVersion_adjacent (pre.map itemNet) (itemNet a) (itemNet b) (post.map itemNet) hne
+    simp only [collapseX, Bool.not_true, Bool.false_eq_true, if_false, ipNets_good _ hg, List.map_append,
+      List.map_cons, hs, Bool.not_false, if_true]
+
+-- non-vacuity: the first comparison decides `False` for the other family, else `ValueError`; the zero prefix
+-- of IPv6 contains a str
+open Ccp.IPValX in
+example : containsX (.obj4 (ofIpLen v4 0x0a000001 8)) (.obj6 (ofIpLen v6 0x0a000001 128)) = some (.error .valueError) ∧
+    containsX (.obj4 (ofIpLen v4 0x0a000001 8)) (.obj6 (ofIpLen v6 1 128)) = some (.ok false) ∧
+    containsX (.obj6 (ofIpLen v6 1 0)) .other = some (.ok true) ∧
+    containsX (.obj4 (ofIpLen v4 1 0)) .other = some (.error .attributeError) := by decide
+open Ccp.IPValX in
+example : collapseX true [.obj 4 (ofIpLen v4 0x0a000001 24), .bad, .empty] = .error .valueError ∧
+    collapseX true [.obj 4 (ofIpLen v4 0x0a000001 24), .empty, .bad] = .error .attributeError ∧
+    collapseX true [.obj 4 (ofIpLen v4 0x0a000001 24), .net 6 (0, 64)] = .error .typeError ∧
+    collapseX false [] = .error .valueError ∧ collapseX true [] = .ok [] := by decide
 
 end Ccp.C12
